@@ -296,21 +296,39 @@ fn memo_key(c: &CallSpec) -> String {
 
 fn exec(case: &HistCase, st: &mut Stats) -> Option<Violation> {
     // the whole run lives on a fresh thread so that its hash keys come from the
-    // (re)seeded shim and not from whatever this worker process did before
+    // (re)seeded shim and not from whatever this worker process did before, and inside the
+    // deterministic arena so that its heap addresses do not depend on that either
     let shim = seams::set_hash_seed(case.hash_seed);
     seams::set_clock(1_700_000_000_000_000_000, case.hash_seed ^ 0xC10C);
     if !shim {
         st.probe("shim_absent");
     }
-    let mut local = Stats::default();
-    let r = std::thread::scope(|s| {
-        s.spawn(|| exec_inner(case, &mut local))
-            .join()
-            .unwrap_or_else(|_| Some(Violation::new("C01/harness-thread-panicked", "")))
-    });
-    seams::set_alloc_junk(0);
+    let arena = !cfg!(miri) && seams::arena_reset();
+    if !arena {
+        st.probe("arena_unavailable");
+    }
+    let (violation, local) = {
+        if arena {
+            seams::arena_on(true);
+        }
+        let mut local = Stats::default();
+        let r = std::thread::scope(|s| {
+            s.spawn(|| exec_inner(case, &mut local))
+                .join()
+                .unwrap_or_else(|_| Some(Violation::new("C01/harness-thread-panicked", "")))
+        });
+        seams::arena_on(false);
+        seams::set_alloc_junk(0);
+        // copy what outlives the run out of the arena (it is forgotten at the next reset)
+        let v = r.as_ref().map(|v| Violation::new(v.key.as_str().to_owned(), v.detail.as_str().to_owned()));
+        let mut copy = Stats::default();
+        copy.merge(&local);
+        drop(r);
+        drop(local);
+        (v, copy)
+    };
     st.merge(&local);
-    r
+    violation
 }
 
 fn exec_inner(case: &HistCase, st: &mut Stats) -> Option<Violation> {
